@@ -96,7 +96,16 @@ def r27_3(ctx):
     for r in body_walk(rc.node):
         if isinstance(r, ast.Return) and isinstance(r.value, ast.Call) and dotted(r.value.func) == "TransferBytes" and all(isinstance(a, ast.Name) for a in r.value.args):
             acc = [a.id for a in r.value.args]
-    need(len(acc) == 2, "Rechunk.transfer_bytes no longer returns TransferBytes(<lo>, <hi>) over two accumulators")
+    if len(acc) != 2:
+        rets = [r for r in body_walk(rc.node) if isinstance(r, ast.Return) and r.value is not None]
+        shaped = [r for r in rets if isinstance(r.value, ast.Call) and dotted(r.value.func) == "TransferBytes" and len(r.value.args) + len(r.value.keywords) == 2]
+        rr.inst(site(rc), returns=[unparse(r.value)[:60] for r in rets])
+        for r in rets:
+            if r not in shaped:
+                ctx.finding(rr, site(rc, r)[:170], f"Rechunk.transfer_bytes returns {unparse(r.value)[:60]}, which is not built as TransferBytes(<min>, <max>): the estimate of a multi-stage rechunk is no longer a (min, max) pair by construction", func=rc, node=r)
+        if len(shaped) == len(rets):
+            rr.notes.append("Rechunk.transfer_bytes builds its pair from something other than two accumulators: shape decided, accumulation not")
+        return rr
     init, other = {}, {}
     for s_ in body_walk(rc.node):
         if isinstance(s_, ast.Assign):
